@@ -1420,7 +1420,10 @@ class Converter5to6:
         with new_branch.lock_write():
             new_branch.set_parent(branch.get_parent())
             new_branch.set_bound_location(branch.get_bound_location())
-            new_branch.set_push_location(branch.get_push_location())
+            push_location = branch.get_push_location()
+            if push_location is not None:
+                # storing None would record the empty string as push location
+                new_branch.set_push_location(push_location)
 
         # New branch has no tags by default
         new_branch.tags._set_tag_dict({})
